@@ -165,3 +165,28 @@ def read_pdu(sock, timeout=10):
             return None
         buf += c
     return buf
+
+
+def raw_client(ae):
+    """Start the accepting entity's handler on one end of a socketpair; returns (raw socket for a scripted requesting
+    peer, link dict with 'log' and 'done')."""
+    a, b = _socket.socketpair()
+    log = []
+    link = {'log': log, 'done': threading.Event(), 'error': None}
+    srv = Tap(b, log, 'A')
+
+    def serve():
+        try:
+            ae.RequestHandlerClass(srv, ('rawclient', 0), ae)
+        except Exception as exc:      # noqa
+            link['error'] = exc
+        finally:
+            try:
+                b.close()
+            except OSError:
+                pass
+            link['done'].set()
+    t = threading.Thread(target=serve, daemon=True)
+    link['server_thread'] = t
+    t.start()
+    return Tap(a, log, 'R'), link
